@@ -666,6 +666,8 @@ func runC16(r *an.Run) {
 		})
 
 	nullableByPresence(r, []string{"payments/db"}, 1, "the SQL store's guards decide admission, settlement and deletion from these columns; a failure reason of 0 (timeout) read as 'no reason' makes the guard path disagree with the loaded payment and with the KV store")
+
+	retrySafeClosures(r, []string{"payments/db"}, `.`, 10, "both payment stores decide admission inside a retryable transaction; a value carried over from an aborted run is not the stored payment (see also store-gates-dominate-writes)")
 }
 
 // definingCalls returns the callee IDs of all definitions of the local id
